@@ -565,7 +565,12 @@ static void do_proof(World &W, const ProofSpec &ps_in, const Fault &f, bool chun
 		// group elements of the decryption proof: positions where the verifier code states the range
 		std::vector<std::pair<int, size_t> > p0;
 		for (size_t i = 0; i < pos.size(); i++) if (pos[i].first == 0) p0.push_back(pos[i]);
-		if (!(ps.kind == K_VMASK || ps.kind == K_REMASK || ps.kind == K_DECRYPT) || p0.empty()) mk = 0;
+		// Everywhere else: value+q or value+p on any numeric prover->verifier line.  An exponent plus q is out of
+		// range, an exponent plus p is another residue (p = kq+1), a group element plus p is out of range and a
+		// group element plus q is another element: all four must be refused at every position.
+		bool special = (ps.kind == K_VMASK || ps.kind == K_REMASK || ps.kind == K_DECRYPT) && ((f.c >> 8) & 1) == 0;
+		if (p0.empty()) mk = 0;
+		else if (!special) { target = p0[(size_t)f.a % p0.size()]; mk = ((f.c >> 9) & 1) ? 5 : 4; }
 		else if (ps.kind == K_DECRYPT && (f.c % 3) != 0 && p0.size() >= 3) { target = p0[(size_t)(f.c % 3) - 1]; mk = 5; }
 		else target = p0.back();
 	}
@@ -609,7 +614,7 @@ static void do_proof(World &W, const ProofSpec &ps_in, const Fault &f, bool chun
 			}
 			else if (mk == 4 || mk == 5)
 			{
-				Z v; if (mpz_set_str(v, line.c_str(), TMCG_MPZ_IO_BASE) == 0)
+				Z v; if (line.find_first_not_of("0123456789ABCDEFGHIJKLMNOPQRSTUVWXYZabcdefghijklmnopqrstuvwxyz") == std::string::npos && mpz_set_str(v, line.c_str(), TMCG_MPZ_IO_BASE) == 0)
 				{ mpz_add(v, v, mk == 4 ? W.P[0].vtmf->q : W.P[0].vtmf->p); out.push_back(v.io()); fired = true; return; }
 			}
 			else if (mk <= 1 && mutate_int_line(line, mk, m) && m != line) { out.push_back(m); fired = true; return; }
